@@ -98,6 +98,7 @@ def main():
             "quick_cmd": "./check %s --tier quick" % pid,
             "thorough_cmd": "./check %s --tier thorough" % pid,
             "evidence_file": "/verif/evidence/%s.json" % pid,
+            **({"replay_cmd_template": "./check %s --replay {path}" % pid} if pid != "C11" else {}),
             "engine": "check",
             "level_claimed": {"category": c["cat"], "text": c["text"], "design_ref": c["ref"]},
             "level_note": c["note"],
